@@ -285,7 +285,8 @@ def main(argv=None):
         "correspondence_disagreements": len(real_disagreements),
         "oracle_failures": len(ctx.failures),
         "oracle_failures_known": {k: len(v) for k, v in listed.items()},
-        "distribution": dict(sorted(ctx.dist.items())),
+        "distribution": dict(sorted(list(ctx.dist.items()) + [
+            ("history: " + k, v) for k, v in __import__("harness.parsing", fromlist=["HISTORY"]).HISTORY.items() if v])),
         "broken": broken,
         "source_changed_since_pinned": ctx.source_changed,
         "notes": ctx.notes,
